@@ -659,6 +659,12 @@ def apply_fx(tx, ct, lo, hi, fxname, fxcalls, inserts, mk, bare=False):
     fxcalls = list(fxarg)
     for k in range(lo, hi):
         t = ct[k]
+        if t.kind == 'id' and t.text in fxcalls and ct[k - 1].text == ':':
+            q_ = k
+            while ct[q_ - 1].text == ':' and ct[q_ - 2].text == ':' and ct[q_ - 3].kind == 'id':
+                q_ -= 3
+            if ct[q_].text in ('std', 'core', 'alloc'):
+                continue        # a std path (`std::mem::forget(x)`) is never an item of the unit, whatever its last segment is called
         if t.kind == 'id' and t.text in fxcalls and ct[k + 1].text == '!' and ct[k + 2].kind == 'punct' and ct[k + 2].text in rl.OPEN:
             # macro invocation (e.g. tokio::select!): the effect state becomes the first macro argument (`select! { fx; .. }`)
             inserts.append(mk(ct[k + 2].end, ' ' + fxname + ';'))
@@ -1759,6 +1765,31 @@ class Gen:
                     tx.edit(ct[k].start, ct[k + 3].end, '', 'R23', 'Pin erased (T: Unpin): Pin::new(E) => (E)')
                     k += 4; continue
                 k += 1
+        if getattr(self, 'drop_items', None):
+            # R33 (automatic): an explicit `drop(X)` / `mem::drop(X)` / `std::mem::drop(X)` of a local X (`self` or a by-value parameter) whose type T
+            # has its `<Drop for T>::drop` as an ITEM of this unit runs that item: `{ let mut __d = X; __d.drop(FX); __d.drop_fields(FXREST) }` --
+            # Drop::drop first, then the drop glue of the fields, which the unit models by a method `drop_fields` of T (an ASSUMED stub in @spec;
+            # it receives the effect-state parameters of the enclosing fn that the Drop item does not take).  (`mem::forget(X)` is left alone: a
+            # prelude `assume_specification [core::mem::forget]` gives it its meaning -- the value is consumed, neither Drop::drop nor the glue runs.)
+            mut_self = ct[fp['popen'] + 1].text == 'mut' and ct[fp['popen'] + 2].text == 'self'
+            ptypes = {'self': tyname}
+            for q in range(fp['popen'] + 1, fp['pclose']):
+                if ct[q].kind == 'id' and ct[q + 1].text == ':' and ct[q + 2].text != ':' and ct[q + 2].kind == 'id' and ct[q + 2].text != 'mut':
+                    ptypes[ct[q].text] = ct[q + 2].text
+            for k in range(fp['bopen'] + 1, body_hi):
+                if not (ct[k].kind == 'id' and ct[k].text == 'drop' and ct[k + 1].text == '(' and ct[k + 2].kind == 'id' and ct[k + 3].text == ')'
+                        and ct[k - 1].text not in ('.', 'fn') and ptypes.get(ct[k + 2].text) in self.drop_items):
+                    continue
+                k0 = k
+                while ct[k0 - 1].text == ':' and ct[k0 - 2].text == ':' and ct[k0 - 3].kind == 'id' and ct[k0 - 3].text in ('mem', 'std'):
+                    k0 -= 3
+                x = '__self' if (ct[k + 2].text == 'self' and mut_self) else ct[k + 2].text
+                dfx = [y.split(':', 1)[0] for y in self.drop_items[ptypes[ct[k + 2].text]].split('+') if y]
+                efx = [y.split(':', 1)[0] for y in it.opts.get('fx', '').split('+') if y]
+                if any(n not in efx for n in dfx):
+                    raise SpecError(f'{region}: R33: drop({ct[k + 2].text}) runs an item with effect state {dfx}, which this item (fx={efx}) does not carry')
+                rep = f'{{ let mut __d = {x}; __d.drop({", ".join(dfx)}); __d.drop_fields({", ".join(n for n in efx if n not in dfx)}) }}'
+                tx.edit(ct[k0].start, ct[k + 3].end, rep, 'R33', f'explicit {ct[k].text}({ct[k + 2].text}) of a value whose Drop impl is an item of the unit made explicit')
         if ct[fp['popen'] + 1].text == 'mut' and ct[fp['popen'] + 2].text == 'self' and ct[fp['popen'] + 3].text in (',', ')'):
             # R29 (automatic): `fn f(mut self, ..) { B }` => `fn f(self, ..) { let mut __self = self; B[self := __self] }`.
             # A `mut` binding mode on a by-value parameter is exactly a mutable local initialised from the argument;
@@ -1766,7 +1797,7 @@ class Gen:
             tx.edit(ct[fp['popen'] + 1].start, ct[fp['popen'] + 2].start, '', 'R29', '`mut self` receiver rebound as a mutable local')
             pending_inserts.append((ct[fp['bopen']].end, ' let mut __self = self;', 'R29'))
             for k in range(fp['bopen'] + 1, fp['bclose']):
-                if ct[k].kind == 'id' and ct[k].text == 'self':
+                if ct[k].kind == 'id' and ct[k].text == 'self' and not any(s_ <= ct[k].start and ct[k].end <= e_ for (s_, e_, _r) in tx.edits):   # (R33 may have rewritten it)
                     tx.edit(ct[k].start, ct[k].end, '__self', 'R29', 'self => __self')
         if it.opts.get('mutself'):
             # R13b: interior mutability made explicit: `&self` receiver becomes `&mut self`
@@ -2334,6 +2365,8 @@ class Gen:
             self.emit('broadcast use {' + ', '.join(bnames) + '};\n')
         self.emit(f'// ===== unit {u.name} =====\n')
         self.fx_items = {}
+        self.drop_items = {m_.group(1): part[1].opts.get('fx', '') for part in u.parts if part[0] == 'item' and part[1].kind == 'fn'
+                           for m_ in [re.match(r'<Drop for (\w+)>::drop$', part[1].sel)] if m_}      # R33
         for part in u.parts:
             if part[0] == 'item' and part[1].kind == 'fn' and part[1].opts.get('fx'):
                 self.fx_items[re.split(r'::', part[1].sel)[-1].split('#')[0]] = part[1].opts['fx']
